@@ -142,8 +142,8 @@ func (pr *ProfileReader) readHeader(header *Header) error {
 	if err != nil {
 		return err
 	}
-	header.Embedded = (value >> 31) != 0
-	header.DependsOnEmbeddedData = (value>>30)&1 != 0
+	header.Embedded = value&1 != 0
+	header.DependsOnEmbeddedData = (value>>1)&1 != 0
 
 	value, err = binary.ReadU32Big(pr.reader)
 	if err != nil {
